@@ -4,6 +4,7 @@ use crate::gen::{self, BiasedReader};
 use opcua::core::supported_message::SupportedMessage;
 use opcua::types::service_types::*;
 use opcua::types::*;
+use opcua::types::service_types::Argument; // both globs export it; nightly rejects the ambiguity
 use serde_json::json;
 use std::convert::TryFrom;
 use std::fmt::Debug;
@@ -888,15 +889,19 @@ pub fn c02(args: &Args, rep: &mut Report) {
 
     // corpus of valid encodings to mutate
     let mut corpus: Vec<Vec<u8>> = Vec::new();
-    for _ in 0..200 {
+    let slow = cfg!(miri);
+    for _ in 0..(if slow { 8 } else { 200 }) {
         corpus.push(gen::variant(&mut rng, 3).encode_to_vec());
         corpus.push(gen::data_value(&mut rng, 2).encode_to_vec());
         corpus.push(gen::diagnostic_info(&mut rng, 3).encode_to_vec());
         corpus.push(gen::extension_object(&mut rng, 2).encode_to_vec());
         corpus.push(gen::expanded_node_id(&mut rng).encode_to_vec());
     }
-    for (_, oid) in ids.iter() {
-        for _ in 0..3 {
+    for (k, (_, oid)) in ids.iter().enumerate() {
+        if slow && (k as u64 + args.shard as u64) % 16 != 0 {
+            continue;
+        }
+        for _ in 0..(if slow { 1 } else { 3 }) {
             let mut rd = BiasedReader::new(rng.fork(3), 4096);
             if let Ok(Ok(m)) = catch(|| SupportedMessage::decode_by_object_id(&mut rd, *oid, &optsets[0].1)) {
                 corpus.push(m.encode_to_vec());
@@ -1006,7 +1011,8 @@ pub fn c02(args: &Args, rep: &mut Report) {
     }
 
     // nesting bombs, each in its own process on a 2 MB stack (the tokio worker default)
-    if args.shard == 0 || args.thorough() {
+    // (not under Miri, which cannot spawn processes, nor in other instrumented passes: the plain pass decides these)
+    if instrumented().is_none() && (args.shard == 0 || args.thorough()) {
         bombs(args, rep);
     }
 }
